@@ -194,13 +194,13 @@ Qed.
 Print Assumptions C17_second_order_node_order.
 
 Import String.   (* string literals; after everything that uses List.length *)
-(* cell-data key scheme: the keys written by _encode_cell_data are parsed by name.split(':') into the marker, the
-   kind and the tag name, for every tag name without ':' *)
+(* cell-data key scheme: the keys written by _encode_cell_data are parsed by name.split(':', 2) into the marker, the
+   kind and the tag name, for EVERY tag name (also one that contains ':') *)
 Theorem C17_key_scheme_roundtrip :
-  forall (name : String.string), has_char colon name = false ->
-    parse_key (String.append gen_key_subdomain name) = ("skfem"%string, "s"%string, name) /\
-    parse_key (String.append gen_key_boundary name) = ("skfem"%string, "b"%string, name).
-Proof. exact key_scheme_roundtrip. Qed.
+  forall (name : String.string),
+    gen_parse_key (String.append gen_key_subdomain name) = ("skfem"%string, "s"%string, name) /\
+    gen_parse_key (String.append gen_key_boundary name) = ("skfem"%string, "b"%string, name).
+Proof. rewrite gen_parse_key_is_model. exact key_scheme_roundtrip_all. Qed.
 Print Assumptions C17_key_scheme_roundtrip.
 
 
